@@ -7,6 +7,64 @@ import LitexModel.Stream.NumG
 import LitexProofs.Stream.Layout
 import LitexProofs.Stream.Stride
 import LitexProofs.Stream.Cast
+import LitexProofs.Stream.Glue
+import LitexProofs.Stream.Fields
+/-
+  INVENTORY of the anchored code (`litex/soc/interconnect/stream.py`, every class / function) — kept current.
+  Tie: A = exhaustive co-exploration of the reachable real-code × model product (small parameters, listed),
+       B = seeded lock-step co-simulation (large parameters), C = Python-level call comparison, — = not tied.
+  Models: LitexModel/Stream/{Basic,Conv,Gearbox,Route,Pipe,NumG,Glue}.lean; driver: LitexModel/Stream/{Open,Open2}.lean.
+
+  code                              | model                          | theorems (this file)                          | tie
+  ----------------------------------+--------------------------------+-----------------------------------------------+-----------------------------
+  _make_m2s, set_reset_less,        | not modelled (record plumbing; | —                                             | indirectly: every instance is
+   EndpointDescription, Endpoint    |  field order = numeric packing)|                                               |  driven through these records
+  _rawbits_layout                   | castFn on one-field layouts    | cast_token_rel                                | A Cast(int layouts) ×2, B ×1
+  pack_layout                       | chunk order of encUp/decDown   | pack_field_rel, unpack_field_rel              | A/B through Pack/Unpack
+  get_endpoints, get_single_ep      | not modelled (unused helpers)  | —                                             | —
+  BinaryActor, CombinatorialActor   | mapElem (control of Cast)      | cast_token_rel                                | A, B (Cast)
+  PipelinedActor(latency)           | pipeActor L                    | pipelinedActor_token_rel (all L)              | A L=0..4, B L=1,5 (`busy` output not compared)
+  _FIFOWrapper                      | syncFifo, syncFifoBuffered     | syncFifo_token_rel, syncFifoBuffered_token_rel| A, B (word packing = packed data number)
+  SyncFIFO(depth, buffered)         | syncFifoStages + stages        | streamSyncFifo_token_rel (all depth, buffered) | A depth 0,1,2,3,5 × buffered (+4,6,7 thorough), B 5..64,
+                                    |                                |                                               |  C structure (which sub-blocks exist); `level` by monitor
+  AsyncFIFO, ClockDomainCrossing    | property C05                   | (C05)                                         | (C05)
+   (cd_from ≠ cd_to)                |                                |                                               |
+  ClockDomainCrossing(same domain)  | cdcSameStages                  | cdcSame_token_rel                             | A buffered / not, B
+  Multiplexer(n), Demultiplexer(n)  | muxOut, demuxOut, selWidth     | mux_token_rel, demux_token_rel, selWidth_spec | A n=1,2,3 (direct, with_csr, via Crossbar), n=2,3 selector
+                                    |                                |                                               |  beyond its width; B n=3,5,6,9; C selector width n=1..69
+  Crossbar(n)                       | crossbar                       | crossbar_token_rel                            | A n=2,3, B n=5
+  Gate(sink_ready_when_disabled)    | gate                           | gate_token_rel                                | A both settings, B
+  _UpConverter(ratio, reverse)      | upConv + encUp                 | upConv_token_rel, upConv_no_loss_dup_reorder, | A ratio 2..6 ± reverse, B 2..16
+                                    |                                |  upconv_layout, pack_field_rel (count)        |
+  _DownConverter(ratio, reverse)    | downConv, downConvV + decDown  | downConv_token_rel_partial (+ witness),       | A ratio 2..6 ± reverse, B 2..16
+                                    |                                |  downConv_vtc, unpack_field_rel               |
+  _IdentityConverter                | downConvV 1 (count ≡ 1)        | downConv_vtc (r = 1), wire_token_rel          | A
+  _get_converter_ratio              | converterKind                  | converter_selection (all widths)              | C exhaustive widths 1..40 (1..96 thorough) incl. ValueError
+  Converter(reverse, report_vtc)    | converterOpen                  | converter_selection + element theorems        | A 10 (up/down/identity × count port), B 4; C constructor
+  StrideConverter(reverse)          | strideUp, strideOut, strideIn  | strideUp_token_rel, strideUp_field_rel,       | A ratio 2,3 ± reverse + identity path, B ratio 2..8
+                                    |                                |  strideDown_field_rel, stride_map_bijective,  |
+                                    |                                |  stride_map_fields                            |
+  lcm, inc_mod                      | ioLcm, incMod                  | ioLcm_spec                                    | through Gearbox
+  Gearbox(i, o, msb_first)          | gearbox (ioLcm i o)            | gearbox_bits_rel, gearbox_prefix,             | A (i,o) ∈ {1..4}² ± msb_first, B 13 width pairs
+                                    |                                |  gearbox_no_deadlock, gearbox_token_rel       |
+  Shifter(dw, shift)                | shifter                        | shifter_token_rel, shifter_window             | A dw 2,3 (own / external shift), B 8,32,64
+  Monitor (clock_domain = "sys")    | monCounterNext, monitor        | monitor_counter_spec, monitor_counts,         | A w=1,2 (single / paired counters, logic and CSR strobes),
+                                    |                                |  monitor_counts_tokens                        |  B w=3,8,32 all four counters; other domains: C05
+  PipeValid, PipeReady              | pipeValid, pipeReady           | pipeValid_token_rel, pipeReady_token_rel, …   | A, B 32..128 bit
+  Buffer(pipe_valid, pipe_ready)    | bufferStages + stages          | buffer_token_rel (all four), bufferVR_…       | A all four combinations, B
+  Delay(n)                          | delay n, delayStages n         | delay_token_rel, delayStages_token_rel (all n)| A n=0..3, B 2,3,5
+  Cast(reverse_from, reverse_to)    | castFn                         | cast_token_rel, cast_identity, cast_inverse,  | A all four flag combinations, B 4
+                                    |                                |  cast_bijective                               |
+  Unpack(n, reverse)                | downConv + decDown             | downConv_token_rel_partial, unpack_field_rel, | A n=2..6, multi-field [1,2] n=3, [2,1]+param n=2; B n=2..8
+                                    |                                |  unpack_pack_field_roundtrip                  |
+  Pack(n, reverse)                  | upConv + encUp                 | upConv_token_rel, pack_field_rel              | A n=2..6, multi-field [1,2] n=3, [2,1]+param n=2; B n=3..8
+  Pipeline(*modules)                | stages l, Elem.comp            | stages_token_rel (all stage lists),           | A 8 heterogeneous lists (12 thorough), B 3 long lists;
+                                    |                                |  stages_no_loss_dup_reorder, pipeline_token_rel|  `Pipeline.add` / deferred finalize: —
+  BufferizeEndpoints(dict, pv, pr)  | bufferize                      | bufferize_token_rel (any element),            | A sink / source / both × v / r / vr around _UpConverter, Pack,
+                                    |                                |  bufferizeUp_token_rel, bufferizedUp_token_rel|  _DownConverter, Unpack; B 6
+  Endpoint.connect(omit / keep)     | Migen `Record.connect`, run,   | —                                             | the omit sets used here (PipeReady {ready}, Converter
+                                    |  not modelled                  |                                               |  {valid_token_count}) through those elements
+-/
 /-
   C03 — Stream elements deliver each token exactly once, in order, rightly transformed.
 
@@ -521,6 +579,265 @@ theorem crossbar_token_rel (n : Nat) (z : α) (ins : List (In (α × Nat × Nat)
     ∀ t ∈ e.accepted () ins, t.data.2.1 = t.data.2.2 ∧ t.data.2.1 < n :=
   rel_run_init (crossbar n z) (xbarRel n) ⟨rfl, by simp⟩ (crossbar_step n z) ins
 
+
+/-! ### Glue: Pipeline of any list of stages, Buffer (all flag combinations), SyncFIFO (every depth, buffered or
+    not — the constructor's three-way selection is part of the model), Delay n, same-domain ClockDomainCrossing -/
+
+/-- `Pipeline(m_1, …, m_n)` of ANY list of identity-typed stages (Endpoint/connect, PipeValid, PipeReady, SyncFIFO d,
+    SyncFIFOBuffered d, in any order and number), every schedule: accepted = delivered ++ the tokens inside (stage
+    nearest the source first), never more than the sum of the stage capacities.  Induction over the stage list
+    (`comp_rel` at every `source.connect(sink)`). -/
+theorem stages_token_rel (l : List Stage) (z : Tok α) (ins : List (In α)) :
+    let e := stages z l
+    e.accepted e.init ins = e.delivered e.init ins ++ pipeInflight l (e.runFrom e.init ins) ∧
+    (pipeInflight l (e.runFrom e.init ins)).length ≤ stagesCap l :=
+  pipeRel_inflight l _ _ _ (rel_run_init (stages z l) (pipeRel l) (pipeRel_init z l) (stages_step z l) ins)
+
+/-- Nothing lost, duplicated or reordered by any such pipeline. -/
+theorem stages_no_loss_dup_reorder (l : List Stage) (z : Tok α) (ins : List (In α)) :
+    let e := stages z l
+    e.delivered e.init ins <+: e.accepted e.init ins ∧
+    (e.accepted e.init ins).length ≤ (e.delivered e.init ins).length + stagesCap l := by
+  obtain ⟨h1, h2⟩ := stages_token_rel l z ins
+  simp only at h1 h2 ⊢
+  refine ⟨by rw [h1]; exact List.prefix_append _ _, ?_⟩
+  have := congrArg List.length h1
+  simp only [List.length_append] at this
+  omega
+
+/-- `Buffer(layout, pipe_valid, pipe_ready)`, all four flag combinations (the instance `bufferVR_token_rel` above is
+    `pv = pr = true`): identity with at most `pv + pr` tokens inside. -/
+theorem buffer_token_rel (pv pr : Bool) (z : Tok α) (ins : List (In α)) :
+    let e := stages z (bufferStages pv pr)
+    e.accepted e.init ins = e.delivered e.init ins ++ pipeInflight _ (e.runFrom e.init ins) ∧
+    (pipeInflight _ (e.runFrom e.init ins)).length ≤ pv.toNat + pr.toNat := by
+  have h := stages_token_rel (bufferStages pv pr) z ins
+  rwa [stagesCap_buffer] at h
+
+/-- `SyncFIFO(layout, depth, buffered)` as constructed, for EVERY `depth ≥ 0` and both `buffered` settings
+    (depth 0: connect; depth 1: `Buffer`, `buffered` ignored; depth ≥ 2: Migen FIFO, one more slot when buffered):
+    identity, at most `depth (+1)` tokens inside. -/
+theorem streamSyncFifo_token_rel (depth : Nat) (buffered : Bool) (z : Tok α) (ins : List (In α)) :
+    let e := stages z (syncFifoStages depth buffered)
+    e.accepted e.init ins = e.delivered e.init ins ++ pipeInflight _ (e.runFrom e.init ins) ∧
+    (pipeInflight _ (e.runFrom e.init ins)).length ≤ depth + (if buffered && decide (2 ≤ depth) then 1 else 0) := by
+  have h := stages_token_rel (syncFifoStages depth buffered) z ins
+  rwa [stagesCap_syncFifo] at h
+
+/-- `Delay(layout, n)` as constructed (n × `Buffer(pipe_valid)` in a `Pipeline`), every `n`. -/
+theorem delayStages_token_rel (n : Nat) (z : Tok α) (ins : List (In α)) :
+    let e := stages z (delayStages n)
+    e.accepted e.init ins = e.delivered e.init ins ++ pipeInflight _ (e.runFrom e.init ins) ∧
+    (pipeInflight _ (e.runFrom e.init ins)).length ≤ n := by
+  have h := stages_token_rel (delayStages n) z ins
+  rwa [stagesCap_delay] at h
+
+/-- `ClockDomainCrossing(cd_from == cd_to, buffered)`: a connect, or one `Buffer`. -/
+theorem cdcSame_token_rel (buffered : Bool) (z : Tok α) (ins : List (In α)) :
+    let e := stages z (cdcSameStages buffered)
+    e.accepted e.init ins = e.delivered e.init ins ++ pipeInflight _ (e.runFrom e.init ins) ∧
+    (pipeInflight _ (e.runFrom e.init ins)).length ≤ buffered.toNat := by
+  have h := stages_token_rel (cdcSameStages buffered) z ins
+  have hc : stagesCap (cdcSameStages buffered) = buffered.toNat := by cases buffered <;> rfl
+  rwa [hc] at h
+
+/-- `BufferizeEndpoints({sink if bs, source if bd}, pipe_valid, pipe_ready)` around ANY element `e` whose history
+    relation `R` is preserved cycle by cycle: what the outer sink accepted, minus the at most `pv + pr` tokens in the
+    sink buffer, is related by `R` to what was delivered plus the at most `pv + pr` tokens in the source buffer.
+    (`bufferizedUp_token_rel` above is the instance `e = upConv`, `bs = bd = pv = true`, `pr = false`.) -/
+theorem bufferize_token_rel {σ : Type} (bs bd pv pr : Bool) (zi : Tok α) (zo : Tok β) (e : Elem α β σ)
+    (R : σ → List (Tok α) → List (Tok β) → Prop) (h0 : R e.init [] [])
+    (hstep : ∀ s a d i, R s a d → R (e.step s i) (a ++ e.accNow s i) (d ++ e.delNow s i))
+    (ins : List (In α)) :
+    let b := bufferize bs bd pv pr zi zo e
+    let s := b.runFrom b.init ins
+    ∃ mid1 mid2,
+      b.accepted b.init ins = mid1 ++ pipeInflight _ s.1 ∧ R s.2.1 mid1 mid2 ∧
+      mid2 = b.delivered b.init ins ++ pipeInflight _ s.2.2 ∧
+      (pipeInflight _ s.1).length ≤ (if bs then pv.toNat + pr.toNat else 0) ∧
+      (pipeInflight _ s.2.2).length ≤ (if bd then pv.toNat + pr.toNat else 0) := by
+  intro b s
+  let l1 := if bs then bufferStages pv pr else []
+  let l2 := if bd then bufferStages pv pr else []
+  have hinner := comp_rel e (stages zo l2) R (pipeRel l2) hstep (stages_step zo l2)
+  have h := rel_run_init b
+    (fun s x d => ∃ m1, pipeRel l1 s.1 x m1 ∧ ∃ m2, R s.2.1 m1 m2 ∧ pipeRel l2 s.2.2 m2 d)
+    ⟨[], pipeRel_init zi l1, [], h0, pipeRel_init zo l2⟩
+    (comp_rel (stages zi l1) (e.comp (stages zo l2)) (pipeRel l1)
+      (fun s x d => ∃ m2, R s.1 x m2 ∧ pipeRel l2 s.2 m2 d) (stages_step zi l1) hinner) ins
+  obtain ⟨m1, h1, m2, h2, h3⟩ := h
+  obtain ⟨e1, c1⟩ := pipeRel_inflight l1 _ _ _ h1
+  obtain ⟨e3, c3⟩ := pipeRel_inflight l2 _ _ _ h3
+  refine ⟨m1, m2, e1, h2, e3, ?_, ?_⟩
+  · rw [← stagesCap_optBuffer bs pv pr]; exact c1
+  · rw [← stagesCap_optBuffer bd pv pr]; exact c3
+
+/-- Instance: any `BufferizeEndpoints` configuration around `_UpConverter` / `Pack`, any ratio. -/
+theorem bufferizeUp_token_rel (bs bd pv pr : Bool) (r : Nat) (hr : 0 < r) (ins : List (In (Nat × Nat))) :
+    let b := bufferize bs bd pv pr zUpIn (zUpOut r) (upConv (α := Nat) (π := Nat) r 0 0)
+    let s := b.runFrom b.init ins
+    ∃ mid1 mid2,
+      b.accepted b.init ins = mid1 ++ pipeInflight _ s.1 ∧
+      (chunks r mid1).map (wordOf 0) = mid2.map upView ++ s.2.1.inflight ∧
+      mid2 = b.delivered b.init ins ++ pipeInflight _ s.2.2 := by
+  obtain ⟨m1, m2, h1, h2, h3, _⟩ := bufferize_token_rel bs bd pv pr zUpIn (zUpOut r) (upConv (α := Nat) (π := Nat) r 0 0)
+    (upRel r 0)
+    ⟨by simp [upConv, UpState.inflight], by simp [upConv], by simpa [upConv] using hr, by simp [upConv],
+     by simp [upConv], by simp [upConv]⟩
+    (upConv_step r hr 0 0) ins
+  exact ⟨m1, m2, h1, h2.1, h3⟩
+
+/-! ### Converter: class and ratio selection (`_get_converter_ratio`) -/
+
+/-- For all widths ≥ 1: the down-converter is chosen exactly when `nbits_from` is a proper multiple of `nbits_to`
+    (ratio ≥ 2 with `from = ratio·to`), the up-converter when `nbits_to` is a proper multiple of `nbits_from`,
+    the identity when the widths are equal, and the constructor raises exactly when neither width divides the other. -/
+theorem converter_selection (nf nt : Nat) (hf : 0 < nf) (ht : 0 < nt) :
+    match converterKind nf nt with
+    | some (.down, r) => nf = r * nt ∧ 2 ≤ r
+    | some (.up, r) => nt = r * nf ∧ 2 ≤ r
+    | some (.ident, r) => nf = nt ∧ r = 1
+    | none => ¬ (nt ∣ nf) ∧ ¬ (nf ∣ nt) :=
+  converterKind_spec nf nt hf ht
+
+/-! ### Pack / Unpack / StrideConverter (down) on the FIELDS of arbitrary layouts -/
+
+/-- `Pack(layout, n = r)` with ANY payload layout (field widths `ws`), params, `reverse`, every schedule: the `m`-th
+    delivered word belongs to the `m`-th chunk `c` of the accepted sub-words; first/last/param/count are the chunk's,
+    and field `k` of source chunk `reverse ? r-1-i : i` is field `k` of the chunk's `i`-th sub-word. -/
+theorem pack_field_rel (r : Nat) (hr : 0 < r) (pw : Nat) (rev vtc : Bool) (ws : List Nat)
+    (ins : List (In (Nat × Nat))) :
+    let e := upConv (α := Nat) (π := Nat) r 0 0
+    ∀ (m : Nat) (hm : m < (e.delivered e.init ins).length),
+      ∃ c, (chunks r (e.accepted e.init ins))[m]? = some c ∧
+        wordOf 0 c = upView ((e.delivered e.init ins)[m]) ∧
+        slice (r * sumW ws) pw (encUp r (sumW ws) pw rev vtc ((e.delivered e.init ins)[m]).data) =
+          ((c.getLast?.map (·.data.2)).getD 0) % 2 ^ pw ∧
+        (vtc = true →
+          encUp r (sumW ws) pw rev vtc ((e.delivered e.init ins)[m]).data / 2 ^ (r * sumW ws + pw) = c.length) ∧
+        ∀ (i : Nat) (hi : i < c.length),
+          (fieldPos ws).map (fun (j, w) => slice ((if rev then r - 1 - i else i) * sumW ws + j) w
+              (encUp r (sumW ws) pw rev vtc ((e.delivered e.init ins)[m]).data)) =
+            (fieldPos ws).map (fun (j, w) => slice j w (c[i].data.1)) := by
+  intro e m hm
+  have hrel := upConv_token_rel (α := Nat) (π := Nat) r hr 0 0 ins
+  have hlen := (rel_run_init (upConv (α := Nat) (π := Nat) r 0 0) (upLenRel r) ⟨by simp [upConv], by simp⟩
+    (upConv_len_step r 0 0) ins).2
+  have hcnt := (rel_run_init (upConv (α := Nat) (π := Nat) r 0 0) (upCntRel r)
+    ⟨by simpa [upConv] using hr, by simp [upConv], by simp⟩ (upConv_cnt_step r hr 0 0) ins).2.2
+  simp only at hrel
+  set D := e.delivered e.init ins with hDdef
+  set C := chunks r (e.accepted e.init ins) with hCdef
+  have hW : (D[m]).data.lanes.length = r := hlen _ (List.getElem_mem hm)
+  have hK : (D[m]).data.count ≤ r := hcnt _ (List.getElem_mem hm)
+  have hget : (C.map (wordOf 0))[m]? = some (upView D[m]) := by
+    rw [hrel, List.getElem?_append_left (by simpa using hm)]
+    simp [hm]
+  rw [List.getElem?_map] at hget
+  obtain ⟨c, hc, hw⟩ := Option.map_eq_some_iff.mp hget
+  have hdata : c.map (·.data.1) = (D[m]).data.lanes.take (D[m]).data.count := by
+    have := congrArg (fun t => t.data.1) hw
+    simpa [wordOf, upView] using this
+  have hcl : c.length = (D[m]).data.count := by
+    have := congrArg List.length hdata
+    simp only [List.length_map, List.length_take] at this
+    omega
+  refine ⟨c, hc, hw, ?_, ?_, ?_⟩
+  · have hp := (encUp_fields r pw rev vtc ws (D[m]).data hW 0 hr).2.1
+    rw [hp]
+    have : (upView D[m]).data.2 = (D[m]).data.param := rfl
+    rw [← this, ← hw]
+    rfl
+  · intro hv
+    have hp := (encUp_fields r pw rev vtc ws (D[m]).data hW 0 hr).2.2
+    rw [hp, hv, hcl]
+    rfl
+  · intro i hi
+    have hf := (encUp_fields r pw rev vtc ws (D[m]).data hW i (by omega)).1
+    rw [hf]
+    have hlane : (D[m]).data.lanes.getD i 0 = c[i].data.1 := by
+      have h1 : (c.map (·.data.1))[i]? = some (c[i].data.1) := by simp [hi]
+      rw [hdata, List.getElem?_take] at h1
+      split at h1
+      · simp [List.getD_eq_getElem?_getD, h1]
+      · simp at h1
+    rw [hlane]
+
+/-- `Unpack(n = r, layout)` / `_DownConverter` on FIELDS, any layout `ws`, params, `reverse`: the `i`-th narrow token
+    the element makes of a wide sink token `t` (`splitTok`, which `downConv_token_rel_partial` shows to be what is
+    delivered) carries field `k` of sink chunk `reverse ? r-1-i : i`, the sink's param, `first` on lane 0 only and
+    `last` on lane `r-1` only. -/
+theorem unpack_field_rel (r pw : Nat) (rev : Bool) (ws : List Nat) (t : Tok Nat) (i : Nat) (hi : i < r) :
+    ∃ u, (splitTok r 0 (mapTok (fun d => decDown r (sumW ws) pw rev d []) t))[i]? = some u ∧
+      (fieldPos ws).map (fun (j, w) => slice j w u.data.1) =
+        (fieldPos ws).map (fun (j, w) => slice ((if rev then r - 1 - i else i) * sumW ws + j) w t.data) ∧
+      u.data.2 = slice (r * sumW ws) pw t.data ∧
+      u.first = (t.first && i == 0) ∧ u.last = (t.last && i + 1 == r) := by
+  refine ⟨laneTok r 0 (mapTok (fun d => decDown r (sumW ws) pw rev d []) t) i, ?_, ?_, rfl, rfl, rfl⟩
+  · simp [splitTok_eq, hi]
+  · exact (decDown_fields r pw rev ws t.data i hi).1
+
+/-- `StrideConverter` (down) on FIELDS: the `i`-th narrow token carries, in field `k`, slice `reverse ? r-1-i : i` of
+    the wide sink field `k`. -/
+theorem strideDown_field_rel (r pw : Nat) (rev : Bool) (ws : List Nat) (t : Tok Nat) (i : Nat) (hi : i < r) :
+    ∃ u, (splitTok r 0 (mapTok (fun d => decStrideDown r pw rev ws d []) t))[i]? = some u ∧
+      (fieldPos ws).map (fun (j, w) => slice j w u.data.1) =
+        (fieldPos ws).map (fun (j, w) => slice ((if rev then r - 1 - i else i) * w) w (slice (r * j) (r * w) t.data)) ∧
+      u.data.2 = slice (r * sumW ws) pw t.data ∧
+      u.first = (t.first && i == 0) ∧ u.last = (t.last && i + 1 == r) := by
+  refine ⟨laneTok r 0 (mapTok (fun d => decStrideDown r pw rev ws d []) t) i, ?_, ?_, rfl, rfl, rfl⟩
+  · simp [splitTok_eq, hi]
+  · exact (decStrideDown_fields r pw rev ws t.data i hi).1
+
+/-- Unpack after Pack returns every field of every sub-word, any layout, any `n`, either `reverse` (same on both). -/
+theorem unpack_pack_field_roundtrip (r : Nat) (rev : Bool) (ws : List Nat) (W : UpWord Nat Nat)
+    (hW : W.lanes.length = r) (i : Nat) (hi : i < r) :
+    (fieldPos ws).map (fun (j, w) =>
+        slice j w ((decDown r (sumW ws) 0 rev (encUp r (sumW ws) 0 rev false W) []).1.getD i 0)) =
+      (fieldPos ws).map (fun (j, w) => slice j w (W.lanes.getD i 0)) :=
+  unpack_pack_fields r rev ws W hW i hi
+
+/-! ### Monitor (clock_domain = "sys"): counters -/
+
+/-- One `MonitorCounter` of any width `w`, every history of `(reset, latch, enable)` cycles: `_count` is the number of
+    `enable` cycles since the last `reset`, saturated at `2^w - 1`; `_count_latched` is the value `_count` had just
+    before the last `latch` (0 after a reset); the CSR status shows `_count_latched` two cycles late (`MultiReg`). -/
+theorem monitor_counter_spec (w : Nat) (h : List (Bool × Bool × Bool)) (x y : Bool × Bool × Bool) :
+    (monRun w monCtr0 h).count = (monSpec w h).1 ∧ (monRun w monCtr0 h).latched = (monSpec w h).2 ∧
+    (monRun w monCtr0 (h ++ [x, y])).m1 = (monSpec w h).2 ∧
+    (monSpec w h).1 ≤ 2 ^ w - 1 :=
+  ⟨(monCounter_spec w h).1, (monCounter_spec w h).2, monCounter_status w h x y, by
+    rw [← (monCounter_spec w h).1]
+    exact monRun_count_le w h⟩
+
+/-- The four counters of `Monitor` count what they are documented to count: with `ins` the cycles seen on the
+    watched endpoint (and the two controls), each enabled counter is `monRun` over the cycle-wise enable
+    `valid & ready` (tokens), `valid & ~ready` (overflows), `~valid & ready` (underflows),
+    `valid & delimiter & ready` (packets); an absent counter stays 0. -/
+theorem monitor_counts (w : Nat) (cfg : MonCfg) (df : Bool) (ins : List MonIn) :
+    let s := (monitor w cfg df).runFrom (monitor w cfg df).init ins
+    (cfg.tokens = true → s.tokens = monRun w monCtr0 (ins.map fun i => (i.reset, i.latch, i.valid && i.ready))) ∧
+    (cfg.overflows = true → s.overflows = monRun w monCtr0 (ins.map fun i => (i.reset, i.latch, i.valid && !i.ready))) ∧
+    (cfg.underflows = true → s.underflows = monRun w monCtr0 (ins.map fun i => (i.reset, i.latch, !i.valid && i.ready))) ∧
+    (cfg.packets = true → s.packets = monRun w monCtr0
+        (ins.map fun i => (i.reset, i.latch, i.valid && (if df then i.first else i.last) && i.ready))) ∧
+    (cfg.tokens = false → s.tokens = monCtr0) ∧ (cfg.overflows = false → s.overflows = monCtr0) ∧
+    (cfg.underflows = false → s.underflows = monCtr0) ∧ (cfg.packets = false → s.packets = monCtr0) :=
+  monitor_run_spec w cfg df ins
+
+/-- Without reset, the token counter (wide enough not to saturate) is the number of tokens handed over. -/
+theorem monitor_counts_tokens (w : Nat) (es : List Bool) (hfit : es.length < 2 ^ w) :
+    (monSpec w (es.map fun e => (false, false, e))).1 = (es.filter id).length :=
+  monSpec_count_noreset w es hfit
+
+/-! ### Multiplexer / Demultiplexer selector width -/
+
+/-- `Signal(max = max(n, 2))` is wide enough for every port number and no wider than needed: all of `0 … n-1` pass the
+    selector port unchanged, and the width is the smallest with that property (for `n ≥ 2`). -/
+theorem selWidth_spec (n : Nat) :
+    (∀ k, k < n → k % 2 ^ selWidth n = k) ∧ 1 ≤ selWidth n ∧ (2 < n → 2 ^ (selWidth n - 1) < n) :=
+  selWidth_facts n
+
 /-! ### Non-vacuity -/
 
 /-- Up-converter, ratio 3: four sub-words, the second with an early `last`; consumer stalls once.  Two words are
@@ -634,5 +951,40 @@ example : strideOut [1, 2] [0b101, 0b010] = 0b011001 ∧ strideIn 2 [1, 2] 0b011
 /-- Cast with `reverse_from`: fields (1 bit, 2 bits) → (2 bits, 1 bit), the first source field gets the second
     sink field. -/
 example : castFn true false [1, 2] [2, 1] 0b101 = 0b110 := by decide
+
+/-- Pipeline PipeValid → SyncFIFO(2) → PipeReady: three tokens accepted while the consumer stalls, then one leaves. -/
+example :
+    let e := stages (α := Nat) ⟨0, false, false⟩ [.pv, .fifo 2, .pr]
+    let ins : List (In Nat) :=
+      [⟨true, ⟨1, true, false⟩, false⟩, ⟨true, ⟨2, false, false⟩, false⟩, ⟨true, ⟨3, false, true⟩, false⟩,
+       ⟨false, ⟨7, true, true⟩, true⟩]
+    e.accepted e.init ins = [⟨1, true, false⟩, ⟨2, false, false⟩, ⟨3, false, true⟩] ∧
+    e.delivered e.init ins = [⟨1, true, false⟩] ∧ stagesCap [.pv, .fifo 2, .pr] = 4 := by decide
+
+/-- The constructor selections: SyncFIFO(1, buffered) is a plain Buffer, SyncFIFO(0) a connect, SyncFIFO(3, buffered)
+    the buffered Migen FIFO; Delay(2) is two PipeValid stages; Buffer(False, True) is a lone PipeReady. -/
+example : syncFifoStages 1 true = [.pv] ∧ syncFifoStages 0 true = [] ∧ syncFifoStages 3 true = [.fifoB 3] ∧
+    syncFifoStages 2 false = [.fifo 2] ∧ delayStages 2 = [.pv, .pv] ∧ bufferStages false true = [.pr] := by decide
+
+/-- Converter selection: 8 → 32 is an up-converter of ratio 4, 24 → 8 a down-converter of ratio 3, 9 → 6 raises. -/
+example : converterKind 8 32 = some (.up, 4) ∧ converterKind 24 8 = some (.down, 3) ∧ converterKind 9 6 = none ∧
+    converterKind 5 5 = some (.ident, 1) := by decide
+
+/-- Pack of fields (1 bit, 2 bits), n = 2, reverse: the word with sub-words 0b101, 0b010 is 0b101010 (chunk 1 holds the
+    first sub-word); field b (2 bits at offset 1) of chunk 1 is field b of sub-word 0. -/
+example : encUp 2 3 0 true false ⟨[0b101, 0b010], 0, 2⟩ = 0b101010 ∧
+    slice (1 * 3 + 1) 2 (encUp 2 3 0 true false ⟨[0b101, 0b010], 0, 2⟩) = slice 1 2 0b101 := by decide
+
+/-- MonitorCounter, 2-bit: five enabled cycles saturate at 3; a latch then shows 3 two cycles later; the side
+    condition of `monitor_counts_tokens` is needed (the count is 3, not 5). -/
+example :
+    let en : Bool × Bool × Bool := (false, false, true)
+    (monRun 2 monCtr0 [en, en, en, en, en]).count = 3 ∧
+    (monRun 2 monCtr0 [en, en, en, en, en, (false, true, false), en, en]).m1 = 3 ∧
+    (monSpec 2 ([true, true, true, true, true].map fun e => (false, false, e))).1 ≠ 5 := by decide
+
+/-- Selector widths: 1 bit for n ≤ 2, 2 bits for n = 3, 4, 3 bits for n = 5. -/
+example : selWidth 1 = 1 ∧ selWidth 2 = 1 ∧ selWidth 3 = 2 ∧ selWidth 4 = 2 ∧ selWidth 5 = 3 ∧ selWidth 9 = 4 := by
+  decide
 
 end Litex.C03
